@@ -303,8 +303,13 @@ static void conf_parse_string_value(struct conf_node_string *cnode)
     if (!cnode->value)
         cnode->value = xstrdup(cnode->def_value);
     if (!cnode->value) {
+        static const union conf_node_string_value no_value;
+        int changed;
+
+        /* Reverting to a NULL default: the value is gone if there was one. */
+        changed = memcmp(&cnode->parsed, &no_value, sizeof(no_value)) != 0;
         memset(&cnode->parsed, 0, sizeof(cnode->parsed));
-        if (orig_value && cnode->base.hook)
+        if (changed && cnode->base.hook)
             cnode->base.hook(&cnode->base);
         goto out;
     }
